@@ -882,3 +882,52 @@ def method_kind(m):
 
 def clone(spec):
     return copy.deepcopy(spec)
+
+
+def gen_extended_ops_api(rng):
+    """Compute-style (REST only) API using google.cloud extended operations: 1-3 operation services
+    and resource services whose RPCs are tracked by one or two DIFFERENT operation services."""
+    name = rng.choice(["compute", "fleet"])
+    pkg = f"acme.{name}.v1"
+    P = "." + pkg
+    host = f"{name}.example.com"
+    scopes = rng.sample(["zone", "region", "global"], rng.randint(1, 3))
+    f = {"name": f"acme/{name}/v1/{name}.proto", "package": pkg, "messages": [], "enums": [], "services": []}
+    f["messages"].append({"name": "Operation", "enums": [{"name": "Status", "values": [["UNDEFINED_STATUS", 0], ["PENDING", 1], ["RUNNING", 2], ["DONE", 3]]}],
+                          "fields": [{"name": "name", "number": 1, "type": "string", "operation_field": "NAME"},
+                                     {"name": "status", "number": 2, "type": "enum", "type_name": P + ".Operation.Status", "operation_field": "STATUS"},
+                                     {"name": "http_error_status_code", "number": 3, "type": "int32", "operation_field": "ERROR_CODE"},
+                                     {"name": "http_error_message", "number": 4, "type": "string", "operation_field": "ERROR_MESSAGE"}]})
+    for sc in scopes:
+        cap = sc.capitalize()
+        fields = [{"name": "operation", "number": 1, "type": "string", "required": True, "operation_response_field": "name"},
+                  {"name": "project", "number": 2, "type": "string", "required": True}]
+        path = "/compute/v1/projects/{project}"
+        if sc != "global":
+            fields.append({"name": sc, "number": 3, "type": "string", "required": True})
+            path += "/" + sc + "s/{" + sc + "}"
+        f["messages"].append({"name": f"Get{cap}OperationRequest", "fields": fields})
+        f["services"].append({"name": f"{cap}Operations", "host": host, "scopes": ["https://www.googleapis.com/auth/cloud-platform"],
+                              "methods": [{"name": "Get", "input": f"{P}.Get{cap}OperationRequest", "output": P + ".Operation",
+                                           "http": {"verb": "get", "path": path + "/operations/{operation}"},
+                                           "operation_polling_method": True}]})
+    for noun in rng.sample(["Disk", "Address", "Image"], rng.randint(1, 2)):
+        svc = {"name": noun + "s", "host": host, "scopes": ["https://www.googleapis.com/auth/cloud-platform"], "methods": []}
+        verbs = rng.sample(["Resize", "Replicate", "Snapshot", "Insert"], rng.randint(1, 3))
+        for verb in verbs:
+            sc = rng.choice(scopes)
+            cap = sc.capitalize()
+            fields = [{"name": noun.lower(), "number": 1, "type": "string", "required": True},
+                      {"name": "project", "number": 2, "type": "string", "required": True, "operation_request_field": "project"}]
+            path = "/compute/v1/projects/{project}"
+            if sc != "global":
+                fields.append({"name": sc, "number": 3, "type": "string", "required": True, "operation_request_field": sc})
+                path += "/" + sc + "s/{" + sc + "}"
+            fields.append({"name": "size_gb", "number": 4, "type": "int32"})
+            mn = f"{verb}{noun}{cap if len(scopes) > 1 else ''}"
+            f["messages"].append({"name": f"{mn}Request", "fields": fields})
+            svc["methods"].append({"name": mn, "input": f"{P}.{mn}Request", "output": P + ".Operation",
+                                   "http": {"verb": "post", "path": path + "/" + noun.lower() + "s/{" + noun.lower() + "}/" + verb.lower()},
+                                   "operation_service": f"{cap}Operations"})
+        f["services"].append(svc)
+    return {"package": pkg, "files": [f], "options": {"transport": "rest", "autogen-snippets": False}}
